@@ -2,6 +2,7 @@
 #[derive(Debug)]
 pub enum Error {
     MultipleHandlers,
+    System(std::io::Error),
 }
 impl std::fmt::Display for Error {
     fn fmt(&self, f: &mut std::fmt::Formatter<'_>) -> std::fmt::Result {
@@ -13,6 +14,7 @@ impl std::error::Error for Error {}
 pub fn set_handler<F: FnMut() + Send + 'static>(handler: F) -> Result<(), Error> {
     simcore::signal::set_handler(Box::new(handler)).map_err(|_| Error::MultipleHandlers)
 }
+/// like the real crate: refuses when the signal's disposition is not the default (see `SIGINT_NOT_DEFAULT_AT_START`)
 pub fn try_set_handler<F: FnMut() + Send + 'static>(handler: F) -> Result<(), Error> {
-    set_handler(handler)
+    simcore::signal::try_set_handler(Box::new(handler)).map_err(|_| Error::System(std::io::Error::new(std::io::ErrorKind::AlreadyExists, "simulated: SIGINT disposition is not SIG_DFL")))
 }
